@@ -49,6 +49,8 @@ class RouteRefresh(Message):
     request = 0
     start = 1
     end = 2
+    SUBTYPES = (request, start, end)
+    LENGTH = 4
 
     def __init__(self, packed: Buffer) -> None:
         if len(packed) != 4:
